@@ -690,14 +690,39 @@ impl RdfPlanner {
         }
 
         // For INSERT operations, we execute all operators in sequence
-        let mut operators: Vec<Box<dyn Operator>> = Vec::new();
-        let mut columns = Vec::new();
+        let mut planned: Vec<(Box<dyn Operator>, Vec<String>)> = Vec::new();
+        let mut columns: Vec<String> = Vec::new();
 
-        for (i, input) in union.inputs.iter().enumerate() {
+        for input in &union.inputs {
             let (op, cols) = self.plan_operator(input)?;
-            operators.push(op);
-            if i == 0 {
-                columns = cols;
+            // The branches of a UNION may bind different variables: the result has all of them
+            for c in &cols {
+                if !columns.contains(c) {
+                    columns.push(c.clone());
+                }
+            }
+            planned.push((op, cols));
+        }
+
+        // Bring every branch to the common column layout (a variable the branch does not
+        // bind is unbound in its solutions)
+        let mut operators: Vec<Box<dyn Operator>> = Vec::new();
+        for (op, cols) in planned {
+            if cols == columns {
+                operators.push(op);
+            } else {
+                let projections = columns
+                    .iter()
+                    .map(|name| match cols.iter().position(|c| c == name) {
+                        Some(idx) => ProjectExpr::Column(idx),
+                        None => ProjectExpr::Constant(Value::Null),
+                    })
+                    .collect();
+                operators.push(Box::new(ProjectOperator::new(
+                    op,
+                    projections,
+                    vec![LogicalType::Any; columns.len()],
+                )));
             }
         }
 
